@@ -2,7 +2,7 @@
 import itertools
 from .family import Family
 
-PROPS_MODULES = ["C17"]
+PROPS_MODULES = ["C17", "RoutingOps"]
 RULE = ("family `route`: a real VhostUserDaemon (RecordingBackend, one worker per mask) is configured by an independent raw "
         "vhost-user peer (SET_VRING_NUM/BASE give every queue a distinct size and base = its identity, SET_VRING_KICK/ENABLE "
         "start it); every queue is kicked through its eventfd and, after a two-phase barrier on every worker, the "
